@@ -375,6 +375,28 @@ pub fn ranges_of(t: RegLan) -> Vec<(u32, u32)> {
 
 /// the class of character c according to the interval list (by definition, linear scan)
 pub fn class_by_scan(ranges: &[(u32, u32)], c: u32) -> Option<usize> {
+    thread_local! {
+        // (address, length, sorted and disjoint) of the list examined last: the test is linear, the lookups are many
+        static LAST: std::cell::Cell<(usize, usize, u64, bool)> = const { std::cell::Cell::new((0, 0, 0, false)) };
+    }
+    let sorted = ranges.len() > 24
+        && LAST.with(|l| {
+            let mid = ranges[ranges.len() / 2];
+            let key = (ranges.as_ptr() as usize, ranges.len(), ((ranges[0].0 as u64) << 40) ^ ((mid.0 as u64) << 20) ^ ranges[ranges.len() - 1].1 as u64);
+            let (p, n, h, v) = l.get();
+            if (p, n, h) == key {
+                v
+            } else {
+                let v = ranges.windows(2).all(|w| w[0].1 < w[1].0);
+                l.set((key.0, key.1, key.2, v));
+                v
+            }
+        });
+    if sorted {
+        // long sorted lists (wide unions): the same answer by bisection
+        let i = ranges.partition_point(|&(_, b)| b < c);
+        return if i < ranges.len() && ranges[i].0 <= c { Some(i) } else { None };
+    }
     ranges.iter().position(|&(a, b)| a <= c && c <= b)
 }
 
